@@ -522,7 +522,18 @@ def run(idx: ProgramIndex, rep: Report, tier: str, selftest: bool = True):
                 helper_fn = idx.function_of_expr(fn.module, inner.func) if isinstance(inner, ast.Call) else None
                 helper_rets = [r.value for r in walk_body(helper_fn) if isinstance(r, ast.Return) and r.value is not None] \
                     if helper_fn is not None else []
-                if isinstance(inner, ast.Name) and inner.id + "#all" in fl:
+                ifexp_arms = []
+                if isinstance(inner, ast.Name):
+                    defs_ = [a2.value for a2 in walk_body(fn) if isinstance(a2, ast.Assign) and any(
+                        isinstance(t, ast.Name) and t.id == inner.id for t in a2.targets)]
+                    if len(defs_) == 1 and isinstance(defs_[0], ast.IfExp) and all(
+                            isinstance(v, (ast.Tuple, ast.List)) and not any(isinstance(e_, ast.Starred) for e_ in v.elts)
+                            for v in (defs_[0].body, defs_[0].orelse)):
+                        ifexp_arms = [defs_[0].body, defs_[0].orelse]
+                if ifexp_arms and len([a_ for a_ in n.args if isinstance(a_, ast.Starred)]) >= 2:
+                    # fixed = (lhs, rhs) if has_left else (rhs,); f.apply(tree, flag, *fixed, *representation)
+                    lays = [[("one", e_) for e_ in v.elts] for v in ifexp_arms]
+                elif isinstance(inner, ast.Name) and inner.id + "#all" in fl:
                     lays = fl[inner.id + "#all"]
                 elif helper_rets and all(isinstance(v, (ast.Tuple, ast.List)) and not any(isinstance(e_, ast.Starred) for e_ in v.elts)
                                          for v in helper_rets) and len([a_ for a_ in n.args if isinstance(a_, ast.Starred)]) >= 2:
